@@ -537,6 +537,34 @@ fn instances(tier: Tier) -> Vec<Inst> {
             lists.push((3, vec![*f, g, h], "literal-or-cube-rotations-n3", false, true));
         }
     }
+    // cube-split triples: a cube c with a free variable x, as (c & x, c & !x, c): re-using the two
+    // halves for the third output competes with paying for the merged cube
+    for n in [3usize, 4] {
+        let mut k = 0usize;
+        for p in 0..(1u32 << n) {
+            for q in 0..(1u32 << n) {
+                if p & q != 0 || (p | q).count_ones() == 0 || (p | q).count_ones() as usize >= n {
+                    continue;
+                }
+                for x in 0..n as u32 {
+                    if (p | q) & (1 << x) != 0 {
+                        continue;
+                    }
+                    k += 1;
+                    if !(thorough || n == 3 || k % 4 == 0) {
+                        continue;
+                    }
+                    let c = cube_tv(n, &CubeM::from_masks(p, q));
+                    let c1 = cube_tv(n, &CubeM::from_masks(p | (1 << x), q));
+                    let c0 = cube_tv(n, &CubeM::from_masks(p, q | (1 << x)));
+                    lists.push((n, vec![c1, c0, c], "cube-split-triples", false, true));
+                    if thorough {
+                        lists.push((n, vec![c, c1, c0], "cube-split-triples", false, true));
+                    }
+                }
+            }
+        }
+    }
     // n <= 1: 3-output lists
     if thorough {
         for n in 0..=1usize {
@@ -604,7 +632,7 @@ fn instances(tier: Tier) -> Vec<Inst> {
         }
     }
     let quick_triples = vec![(1, 1, 1), (1, 2, 3), (3, 1, 2)];
-    let heavy_triples = vec![(1, 1, 1), (2, 3, 3), (3, 1, 2)];
+    let heavy_triples = vec![(1, 1, 1), (2, 3, 3), (3, 1, 2), (2, 2, 1)];
     let all_triples: Vec<(i32, i32, i32)> = (1..=3).flat_map(|a| (1..=3).flat_map(move |x| (1..=3).map(move |o| (a, x, o)))).collect();
     let mut out = Vec::new();
     for (n, fs, family, meta, heavy) in lists {
@@ -662,6 +690,7 @@ fn worker(k: usize, nw: usize, tier: Tier, seed: u64, out: &str) -> i32 {
                 "all-singles-n3" => "all 256 single functions of 3 variables; exhaustive optimum (+ metamorphic on every 16th)",
                 "triples-n<=1" => "all 3-output lists for n<=1; exhaustive optimum",
                 "npn-pairs-n3" | "npn-triples-n3" => "pairs / triples of the 14 NPN representatives of 3 variables; exhaustive optimum while the state space is <= 2^21",
+                "cube-split-triples" => "(c & x, c & !x, c) for every cube c with a free variable x, n = 3 and 4, 3 outputs; exhaustive optimum",
                 "literal-or-cube-rotations-n3" => "(literal | 2-literal cube) and its two variable rotations, 3 outputs; exhaustive optimum",
                 "literal-or-cube-pairs-n4" => "(literal | 3-literal cube) and a variable-permuted copy, n=4, 2 outputs; exhaustive optimum",
                 "npn-singles-n4" => "NPN representatives of 4 variables, single output; exhaustive optimum (ESOP: 2^16 states), metamorphic on every 4th",
